@@ -46,6 +46,12 @@ def alphabet(tier, depth):
         ops.append(('stop', n))
     for f in (FILES if depth < 4 else ('F0', 'Fa', 'FA')):
         ops.append(('reloadconfig', f))
+    if depth <= 2:
+        # a reload whose last watcher cannot be started (its stdin_socket names no socket), and a reload observed while
+        # its last watcher is still between two warmup-paced spawns
+        for f in ('Fab', 'Fb', 'FA'):
+            ops.append(('reloadconfig-bad', f))
+            ops.append(('reloadconfig-mid', f))
     return ops
 
 
@@ -129,7 +135,8 @@ def run_seq(r, case):
         by_command = set()
         for step, (op, arg) in enumerate(seq):
             where = 'arbiter.%s' % {'add': 'add_watcher', 'add+start': 'add_watcher', 'rm': 'rm_watcher',
-                                   'rm-nostop': 'rm_watcher', 'reloadconfig': 'reload_from_config'}.get(op, op)
+                                   'rm-nostop': 'rm_watcher', 'reloadconfig': 'reload_from_config',
+                                   'reloadconfig-bad': 'reload_from_config', 'reloadconfig-mid': 'reload_from_config'}.get(op, op)
             desc = lambda: 'step %d %s(%r) of %s' % (step, op, arg, json.dumps(seq))     # noqa: E731
             victims = None
             if op in ('add', 'add+start'):
@@ -167,12 +174,35 @@ def run_seq(r, case):
                 r.check('C15.case_routing', rq.ok() == (arg.lower() in ref),
                         lambda: desc() + ': %s %r answered %r, existing %s' % (op, arg, rq.reply(), sorted(ref.values())),
                         'commands.base._get_watcher', case, fp='routing', nontrivial=arg.lower() in ref)
-            elif op == 'reloadconfig':
-                write_ini(ini, [(n, wopts) for n in FILES[arg]])
+            elif op in ('reloadconfig', 'reloadconfig-bad', 'reloadconfig-mid'):
+                ws = [(n, dict(wopts)) for n in FILES[arg]]
+                if op == 'reloadconfig-bad':
+                    # the section changes (so the watcher is re-created) and its next process creation fails the way a
+                    # pre-exec failure does (stdin_socket naming no socket, unknown uid...): subprocess.SubprocessError
+                    ws[-1][1]['stdin_socket'] = 'nosuchsocket'
+                    bad = ws[-1][0].lower()
+
+                    def fault(kernel, attempts, info, bad=bad):
+                        import subprocess
+                        if (info.get('watcher') or '').lower() == bad:
+                            return subprocess.SubprocessError('Exception occurred in preexec_fn.')
+                        return None
+                    w.kernel.popen_fault = fault
+                elif op == 'reloadconfig-mid':
+                    ws[-1][1].update(numprocesses=2, warmup_delay=1)
+                write_ini(ini, ws)
                 rq = w.request('reloadconfig')
-                lenient = bool(by_command & set(ref))
+                lenient = bool(by_command & set(ref)) or op == 'reloadconfig-bad'
                 if rq.ok():
                     ref = {n.lower(): n for n in FILES[arg]}
+                if op == 'reloadconfig-mid':
+                    w.run(horizon=0.3)
+                    vm = views(w)
+                    keys = [sorted(x.lower() for x in vm[k]) if isinstance(vm[k], list) else vm[k]
+                            for k in ('list', 'status', 'stats')]
+                    r.check('C15.views_agree', keys[0] == keys[1] == keys[2] and vm['numwatchers'] == len(keys[0]),
+                            lambda: desc() + ': while the reload is in progress the views disagree: %s' % json.dumps(vm, default=repr),
+                            where + '/in-progress', case, fp='views-mid', nontrivial=True)
             w.run(until=lambda x: x.slot() is None and not x.stopping_processes() and not x.loop.has_ready(), horizon=4)
             if victims is not None and rq.ok():
                 alive = [p for p in victims if w.kernel.procs[p].state == RUNNING]
@@ -182,8 +212,9 @@ def run_seq(r, case):
                 else:
                     r.check('C15.rm_nostop_keeps', alive == victims, lambda: desc() + ': nostop but workers were stopped', where,
                             case, fp='rm-nostop', nontrivial=bool(victims))
+            w.kernel.popen_fault = None
             v = views(w)
-            if op == 'reloadconfig' and lenient and isinstance(v['list'], list):
+            if op.startswith('reloadconfig') and lenient and isinstance(v['list'], list):
                 # reloadconfig over watchers created by `add` is outside C12/C15 (it fails on their missing _cfg):
                 # only the coherence of the views among themselves is judged for this step
                 ref = {n.lower(): n for n in v['list']}
